@@ -897,6 +897,7 @@ func genSeq(r *Rng, mode string, steps int) *Enc {
 					{"2024-02-29T12:30:00Z", "2024-02-29T12:30:00+02:00", "1999-12-31T23:59:59Z"},
 					{"May 5, 2024", "September 15, 2023", "January 2, 2006"},
 					{"2024-01-05", "2024-01-06 ", " 2024-01-07", "2024-01-08"},
+					{"2024-01-05", "2024-01-06 ", "2024-01-08"},
 				})
 				for i := range d {
 					d[i] = Pick(r, fam)
